@@ -20,7 +20,8 @@ SDirs   == {"sendrecv", "sendonly", "recvonly", "inactive", "absent"}
 SCodecs == {"supported", "unsupported", "mixed", "subset", "renumbered", "renumbered2"}
 \* "video-prefs-*": a video transceiver with SetCodecPreferences (primary + RTX pairs, local numbering)
 Pre     == {"none", "audio-sendrecv-track", "video-recvonly", "audio+video-tracks", "two-video",
-            "video-prefs-vp9rtx", "video-prefs-vp8rtx-h264", "video-prefs-rtxfirst"}
+            "video-prefs-vp9rtx", "video-prefs-vp8rtx-h264", "video-prefs-rtxfirst",
+            "video-prefs-nopt", "audio-prefs-nopt"}     \* "-nopt": preferences given as capabilities, without payload types
 Post    == {"none", "dc+offer", "reoffer-sendonly", "reoffer-recvonly", "reoffer-inactive", "track+offer"}
 Place   == {"media", "session"}
 
@@ -34,7 +35,14 @@ VARIABLE vec
 \* large to enumerate), so every run explores a different slice of the space.
 SecSample == RandomSubset(NSec, Section)
 Offers == UNION {{o \in [1..k -> SecSample] : OfferOK(o)} : k \in 1..MaxSecs}
-Init == vec \in RandomSubset(NVec, [offer : Offers, pre : Pre, post : Post, place : Place])
+\* every arrangement of codec preferences against every codec class of a single offered section of
+\* that kind, live and inactive: all of them, not a sample
+PrefPre == {"video-prefs-vp9rtx", "video-prefs-vp8rtx-h264", "video-prefs-rtxfirst", "video-prefs-nopt", "audio-prefs-nopt"}
+PrefKind(p) == IF p = "audio-prefs-nopt" THEN "audio" ELSE "video"
+PrefVecs == {[offer |-> <<[kind |-> PrefKind(p), mid |-> "0", dir |-> d, codecs |-> c]>>, pre |-> p, post |-> "none", place |-> "media"] :
+                p \in PrefPre, c \in SCodecs, d \in {"sendrecv", "inactive"}}
+Init == \/ vec \in RandomSubset(NVec, [offer : Offers, pre : Pre, post : Post, place : Place])
+        \/ vec \in PrefVecs
 Next == UNCHANGED vec
 
 \* the intended answer, abstractly: same sections; unusable ones rejected in place
